@@ -13,7 +13,7 @@
 From Coq Require Import List ZArith Bool Arith.
 Import ListNotations.
 From TI Require Import model.RArgs proofs.RArgsBasics proofs.RArgsProofs proofs.RArgsOps
-     proofs.RArgsLaws.
+     proofs.RArgsLaws proofs.RArgsTags.
 
 (** the invariant holds initially *)
 Theorem C16_initial_heap_wf : forall F, wf_forest F -> WF F heap0.
@@ -145,6 +145,24 @@ Theorem C16_namespace_eq_hash :
   forall a b, ns_eq a b = true -> ns_hash a = ns_hash b.
 Proof. exact ns_eq_hash. Qed.
 Print Assumptions C16_namespace_eq_hash.
+
+(** namespace-class SUBCLASSES.  Every theorem above quantifies over all forests and all
+    namespace values, so it also holds of the TAGGED reading used by the correspondence
+    (a namespace made from the [tag]-th subclass of [c]'s namespace class is written
+    [(c, tag :: f)], defaults [0 :: d], field [j] is field [S j]; model/RArgsTie.v), in
+    which "the last namespace given" is a statement about INSTANCES.  The only operation
+    that computes on field lists, the field update, accepts / rejects on the tagged
+    encoding exactly as on the plain one and keeps the tag (= [type(self)], _types.py:589),
+    in the heap model and in the rule *)
+Theorem C16_namespace_class_is_a_hidden_field :
+  forall F Ft c tag f fields,
+    length (dflt Ft c) = S (length (dflt F c)) ->
+    ns_update Ft c (tag :: f) (shift fields) =
+      match ns_update F c f fields with Ok f' => Ok (tag :: f') | Err e => Err e end /\
+    spec_fields Ft c (tag :: f) (shift fields) =
+      match spec_fields F c f fields with Ok f' => Ok (tag :: f') | Err e => Err e end.
+Proof. exact tagged_field_update. Qed.
+Print Assumptions C16_namespace_class_is_a_hidden_field.
 
 (** namespace class statements: iff tables of the metaclass decision *)
 Theorem C16_namespace_meta_accept_iff :
